@@ -104,6 +104,8 @@ pub struct Plan {
     pub multi_message_units: usize,
     /// message ends within 8 bytes of a power of two (>= 1024) of the server's byte stream
     pub ends_at_buffer_boundary: usize,
+    /// everything the peer writes when nothing stalls: hello + the reply streams of all rounds
+    pub server_stream: Vec<u8>,
 }
 
 pub fn build_plan(case: &Case) -> Plan {
@@ -139,6 +141,7 @@ pub fn build_plan(case: &Case) -> Plan {
     let mut at_boundary = 0;
     // bytes the server has written so far (nudges, sent only after a stall, are not counted)
     let mut offset = hello.len();
+    let mut server_stream = hello.clone();
     for (r, round) in case.rounds.iter().enumerate() {
         total_msgs += round.payloads.len();
         steps.push(Step::AwaitWithNudge {
@@ -187,6 +190,7 @@ pub fn build_plan(case: &Case) -> Plan {
             })
             .count();
         offset += stream.len();
+        server_stream.extend_from_slice(&stream);
         let delims = delimiter_offsets(&stream);
         let mut cuts: Vec<usize> = round
             .cuts
@@ -235,6 +239,7 @@ pub fn build_plan(case: &Case) -> Plan {
         in_delimiter_splits: in_delim,
         multi_message_units: multi,
         ends_at_buffer_boundary: at_boundary,
+        server_stream,
     }
 }
 
@@ -253,6 +258,9 @@ pub struct ClientObs {
     pub replies: Vec<ReplyObs>,
     /// (C18) when the first reply future was dropped
     pub dropped_at_ns: Option<u64>,
+    /// sizes of the client's reads from the transport, in order (TLS and local CLI; from the
+    /// client's own TRACE records)
+    pub read_sizes: Vec<usize>,
 }
 
 /// the rounds of a case on an established session
@@ -318,6 +326,7 @@ pub fn run_case(case: &Case, plan: &Plan) -> Result<(ClientObs, Marks), String> 
             in_delimiter_splits: 0,
             multi_message_units: 0,
             ends_at_buffer_boundary: 0,
+            server_stream: Vec::new(),
         };
         run_case_inner(&c, &plan)
     }) {
@@ -440,6 +449,42 @@ async fn run_drop_reader<T: Transport + 'static>(
     });
 }
 
+/// Collects the sizes of the client's own reads from its TRACE records ("read N bytes. buffer
+/// length is M", emitted by the TLS and local-CLI receive loops after every `read_buf`), so that
+/// the evidence can say where the byte stream was *actually* split, not where the peer intended.
+#[derive(Clone, Default)]
+struct ReadSizes(std::sync::Arc<std::sync::Mutex<Vec<usize>>>);
+
+impl<S: tracing::Subscriber> tracing_subscriber::Layer<S> for ReadSizes {
+    fn on_event(&self, event: &tracing::Event<'_>, _ctx: tracing_subscriber::layer::Context<'_, S>) {
+        if !event.metadata().target().starts_with("netconf::transport") {
+            return;
+        }
+        struct V(Option<usize>);
+        impl tracing::field::Visit for V {
+            fn record_debug(&mut self, field: &tracing::field::Field, value: &dyn std::fmt::Debug) {
+                if field.name() == "message" {
+                    let m = format!("{value:?}");
+                    if let Some(rest) = m.strip_prefix("read ") {
+                        self.0 = rest.split(' ').next().and_then(|n| n.parse().ok());
+                    }
+                }
+            }
+        }
+        // only the message field is looked at; the buffer dumps of the other records are never
+        // formatted
+        if event.metadata().fields().field("message").is_some()
+            && event.metadata().fields().len() == 1
+        {
+            let mut v = V(None);
+            event.record(&mut v);
+            if let Some(n) = v.0 {
+                self.0.lock().unwrap().push(n);
+            }
+        }
+    }
+}
+
 /// one session on a real transport: the scripted peer on one side, `client_plan` on the other
 pub fn run_session(
     transport: Tr,
@@ -452,6 +497,15 @@ pub fn run_session(
         .build()
         .map_err(|e| format!("runtime: {e}"))?;
     let script = script.clone();
+    let reads = ReadSizes::default();
+    let subscriber = {
+        use tracing_subscriber::layer::SubscriberExt;
+        tracing_subscriber::registry().with(reads.clone())
+    };
+    // the client half of the session runs inside `block_on`, i.e. on this thread: a thread-local
+    // subscriber sees the records of the TLS / local-CLI receive loops (SSH reads in a spawned
+    // task; its units are exact anyway)
+    let _guard = tracing::subscriber::set_default(subscriber);
     let out = rt.block_on(async move {
         let mut obs = ClientObs::default();
         let est_wait = Duration::from_millis(2 * NUDGE_MS + 2000);
@@ -553,7 +607,11 @@ pub fn run_session(
         }
     });
     rt.shutdown_timeout(Duration::from_millis(300));
-    out
+    let sizes = reads.0.lock().unwrap().clone();
+    out.map(|(mut obs, marks)| {
+        obs.read_sizes = sizes;
+        (obs, marks)
+    })
 }
 
 pub fn judge(case: &Case, plan: &Plan, client: &ClientObs, marks: &Marks, obs: &mut Obs) {
@@ -666,7 +724,13 @@ pub struct C06;
 
 fn round_strategy() -> impl Strategy<Value = Round> {
     (
-        prop::collection::vec(0u8..LOOKALIKES.len() as u8, 1..5),
+        // how many requests are pipelined: mostly a few; sometimes more than any queue between a
+        // transport's reader task and the session is likely to hold (the SSH transport's is 32)
+        prop_oneof![
+            16 => prop::collection::vec(0u8..LOOKALIKES.len() as u8, 1..5),
+            3 => prop::collection::vec(0u8..LOOKALIKES.len() as u8, 5..20),
+            1 => prop::collection::vec(0u8..LOOKALIKES.len() as u8, 33..80),
+        ],
         prop::collection::vec(any::<u16>(), 0..6),
         prop::collection::vec((0u8..5, 1u8..6), 0..4),
         0u8..6,
@@ -710,13 +774,18 @@ impl Prop for C06 {
     fn rule(&self) -> String {
         "a session on a real loopback transport (TLS via tokio-rustls, SSH via russh with exact \
          channel-data packets, local CLI via a child process) whose peer writes the hello and, per \
-         round, the concatenated replies to 1..4 pipelined tagged get-configs in units cut at \
+         round, the concatenated replies to 1..4 (sometimes up to 79) pipelined tagged get-configs in units cut at \
          generated positions plus forced cuts at offsets 1..5 inside chosen `]]>]]>` delimiters, \
-         with 0..7 ms pauses; payloads contain delimiter look-alikes. The peer sends further \
+         with 0..7 ms pauses; payloads contain delimiter look-alikes and 0..20000 padding bytes, and \
+         in 40 % of the rounds one message is padded so that it ends within 8 bytes of a power-of-two \
+         offset (>= 1024) of the peer's byte stream (where a receive buffer runs full). The peer sends further \
          traffic (a newline) only if the client has not progressed for 1.5 s and records when. \
          Oracle: every caller receives exactly its payload (content) before any such nudge \
-         (promptness). Non-trivial = at least one cut inside a delimiter or a unit holding two or \
-         more message ends; distinct by case"
+         (promptness). Non-trivial = at least one cut inside a delimiter, a unit holding two or \
+         more message ends, or a message ending next to a power-of-two offset; distinct by case. \
+         The classes `achieved:*` count the sessions in which the client's own reads (sizes taken \
+         from its TRACE records, TLS and local CLI) really ended inside a delimiter / really held \
+         several message ends"
             .into()
     }
     fn cases(&self, tier: Tier) -> u32 {
@@ -781,6 +850,20 @@ impl Prop for C06 {
                     align: None,
                 }],
             });
+            // more messages in one unit than a transport-internal queue holds
+            out.push(Case {
+                transport: tr,
+                hello_split: 0,
+                hello_cuts: vec![],
+                rounds: vec![Round {
+                    payloads: vec![0; 40],
+                    cuts: vec![],
+                    delimiter_splits: vec![],
+                    pause_ms: 0,
+                    pads: vec![],
+                    align: None,
+                }],
+            });
         }
         out
     }
@@ -800,12 +883,51 @@ impl Prop for C06 {
         if plan.ends_at_buffer_boundary > 0 {
             obs.class("message-ends-next-to-a-power-of-two-offset");
         }
+        match case.rounds.iter().map(|r| r.payloads.len()).max().unwrap_or(0) {
+            0..=4 => {}
+            5..=32 => obs.class("pipelined:5..32"),
+            _ => obs.class("pipelined:33+"),
+        }
         obs.nontrivial = plan.in_delimiter_splits > 0
             || plan.multi_message_units > 0
             || plan.ends_at_buffer_boundary > 0;
         match run_case(case, &plan) {
             Err(e) => obs.fail("harness-sanity:transport-setup", e),
             Ok((client, marks)) => {
+                // where did the client's reads really end? (TLS / local CLI, from its own TRACE
+                // records; only when the peer never had to nudge, i.e. wrote exactly the plan)
+                let nudged = marks.marks.iter().any(|(n, _)| n.starts_with("nudge-"));
+                if case.transport != Tr::Ssh && !nudged && !client.read_sizes.is_empty() {
+                    let delims = delimiter_offsets(&plan.server_stream);
+                    let mut at = 0usize;
+                    let (mut inside, mut multi) = (0, 0);
+                    for n in &client.read_sizes {
+                        let end = at + n;
+                        if delims.iter().any(|d| end > *d && end < *d + MARKER.len()) {
+                            inside += 1;
+                        }
+                        if delims
+                            .iter()
+                            .filter(|d| **d + MARKER.len() > at && **d + MARKER.len() <= end)
+                            .count()
+                            >= 2
+                        {
+                            multi += 1;
+                        }
+                        at = end;
+                    }
+                    if at == plan.server_stream.len() {
+                        obs.class("reads-measured");
+                        if inside > 0 {
+                            obs.class("achieved:a-read-ended-inside-a-delimiter");
+                        }
+                        if multi > 0 {
+                            obs.class("achieved:one-read-held-the-ends-of-several-messages");
+                        }
+                    } else {
+                        obs.class("reads-measured-but-total-differs(not-counted)");
+                    }
+                }
                 judge(case, &plan, &client, &marks, &mut obs);
                 if !obs.failures.is_empty() && !obs.failures[0].0.starts_with("harness") {
                     // timing is involved: reproduce once before reporting
